@@ -203,7 +203,7 @@ theorem run_rtrim (cfg : Cfg) (fuel : Nat) (g : G) (m : WsMode) (ctx : Ctx) (pos
         match o.err with
         | some e =>
           let (errPos, _) := skipWhitespaces cfg.file e.pos m
-          some (⟨o.res, o.cp, some (if errPos > e.pos then ⟨errPos, e.kind⟩ else e)⟩, st)
+          some (⟨o.res, o.cp, some (if !e.kind.isWs && errPos > e.pos then ⟨errPos, e.kind⟩ else e)⟩, st)
         | none =>
           let (res', ws) := setRposRes cfg.file m o.res
           match ws with
@@ -235,17 +235,468 @@ theorem run_rtrim_term (cfg : Cfg) (fuel : Nat) (g : G) (m : WsMode) (ctx : Ctx)
   · simp only [if_pos h]
   · simp only [if_neg h]
 
-/-- RightTrim over an operand that failed: the error moves past the whitespace at its position, whatever the mode -/
+/-- RightTrim over an operand that failed: a whitespace error is handed on unchanged; any other error moves
+    past the whitespace at its position, whatever the mode -/
 theorem run_rtrim_err (cfg : Cfg) (fuel : Nat) (g : G) (m : WsMode) (ctx : Ctx) (pos : Nat) (st st' : St)
     (res : Res) (cp : List Nat) (e : Err)
-    (hb : Budget cfg st) (hin : InFile cfg.file e.pos) (hoff : 1 ≤ cfg.file.offset)
+    (hb : Budget cfg st) (hin : e.kind.isWs = false → InFile cfg.file e.pos) (hoff : 1 ≤ cfg.file.offset)
     (hr : run cfg fuel g ctx pos st = some (⟨res, cp, some e⟩, st')) :
     run cfg (fuel + 1) (.rtrim g m) ctx pos st =
-      some (⟨res, cp, some ⟨e.pos + wsRun (rest cfg.file e.pos), e.kind⟩⟩, st') := by
+      some (⟨res, cp, some (if e.kind.isWs then e else ⟨e.pos + wsRun (rest cfg.file e.pos), e.kind⟩)⟩, st') := by
   rw [run_rtrim cfg fuel g m ctx pos st hb, hr]
-  simp only [skipWhitespaces_spec cfg.file e.pos m hin hoff]
-  by_cases h : wsRun (rest cfg.file e.pos) = 0
-  · rw [if_neg (by omega)]; simp [h]
-  · rw [if_pos (by omega)]
+  cases hw : e.kind.isWs with
+  | true => simp [hw]
+  | false =>
+    simp only [skipWhitespaces_spec cfg.file e.pos m (hin hw) hoff]
+    by_cases h : wsRun (rest cfg.file e.pos) = 0
+    · simp [h, hw]
+    · have : e.pos + wsRun (rest cfg.file e.pos) > e.pos := by omega
+      simp [this, hw]
+
+/-- RightTrim over an operand that failed with a whitespace error -/
+theorem run_rtrim_wsErr (cfg : Cfg) (fuel : Nat) (g : G) (m : WsMode) (ctx : Ctx) (pos : Nat) (st st' : St)
+    (res : Res) (cp : List Nat) (e : Err)
+    (hb : Budget cfg st) (hoff : 1 ≤ cfg.file.offset) (hw : e.kind.isWs = true)
+    (hr : run cfg fuel g ctx pos st = some (⟨res, cp, some e⟩, st')) :
+    run cfg (fuel + 1) (.rtrim g m) ctx pos st = some (⟨res, cp, some e⟩, st') := by
+  rw [run_rtrim_err cfg fuel g m ctx pos st st' res cp e hb (fun h => by rw [hw] at h; cases h) hoff hr, if_pos hw]
+
+/-! ### token sequences -/
+
+/-- whatever follows does not continue a whitespace run -/
+def Stop (tail : Bytes) : Prop := ∀ c, tail.head? = some c → isWs c = false
+
+theorem wsRun_all (g : Bytes) (hg : ∀ b ∈ g, isWs b = true) : wsRun g = g.length := by
+  unfold wsRun
+  induction g with
+  | nil => rfl
+  | cons b r ih =>
+    rw [List.takeWhile_cons, if_pos (hg b (by simp))]
+    simp only [List.length_cons]
+    rw [ih (fun x hx => hg x (by simp [hx]))]
+
+theorem wsRun_append (g tail : Bytes) (hg : ∀ b ∈ g, isWs b = true) (ht : Stop tail) :
+    wsRun (g ++ tail) = g.length := by
+  induction g with
+  | nil =>
+    cases tail with
+    | nil => rfl
+    | cons c t =>
+      have := ht c rfl
+      simp [wsRun, this]
+  | cons b r ih =>
+    have hb := hg b (by simp)
+    have := ih (fun x hx => hg x (by simp [hx]))
+    unfold wsRun at *
+    simp only [List.cons_append, List.takeWhile_cons, hb, if_true, List.length_cons, this]
+
+theorem firstBreak_append (g tail : Bytes) (hg : ∀ b ∈ g, isWs b = true) (ht : Stop tail) :
+    firstBreak (g ++ tail) = firstBreak g := by
+  induction g with
+  | nil =>
+    cases tail with
+    | nil => rfl
+    | cons c t =>
+      have := ht c rfl
+      simp [firstBreak, this]
+  | cons b r ih =>
+    have hb := hg b (by simp)
+    have := ih (fun x hx => hg x (by simp [hx]))
+    simp only [List.cons_append, firstBreak, hb, if_true, this]
+
+theorem wsOk_append (m : WsMode) (g tail : Bytes) (hg : ∀ b ∈ g, isWs b = true) (ht : Stop tail) :
+    wsOk m (g ++ tail) ↔ wsOk m g := by
+  have h1 := wsRun_append g tail hg ht
+  have h2 := firstBreak_append g tail hg ht
+  have h3 := wsRun_all g hg
+  cases m <;> simp only [wsOk, h1, h2, h3]
+
+/-- the input after the leading whitespace -/
+def body : List Tok → Bytes
+  | [] => []
+  | t :: r => t.ch :: (t.gap ++ body r)
+
+theorem weave_eq (g0 : Bytes) (toks : List Tok) : weave g0 toks = g0 ++ body toks := by
+  induction toks generalizing g0 with
+  | nil => simp [weave, body]
+  | cons t r ih => simp [weave, body, ih]
+
+theorem body_stop (toks : List Tok) (hwf : ∀ t ∈ toks, t.wf) : Stop (body toks) := by
+  intro c hc
+  cases toks with
+  | nil => simp [body] at hc
+  | cons t r =>
+    simp only [body, List.head?_cons, Option.some.injEq] at hc
+    subst hc
+    exact (hwf t (by simp)).2.1
+
+theorem stop_cons (c : Nat) (l : Bytes) (h : isWs c = false) : Stop (c :: l) := by
+  intro x hx; simp at hx; subst hx; exact h
+
+
+theorem rune_parse (P : Params) (f : File) (ch : Nat) (name : Bytes) (p : Nat) (tl : Bytes)
+    (hch : ch < 0x80) (hin : InFile f p) (hrest : rest f p = ch :: tl) :
+    (Terminal.rune ch name).parse P f p = .node (.term (Utf8.encodeRune ch) (.rune ch) p (p + 1)) := by
+  simp only [Terminal.parse, readRune_ascii f p ch hin hch, hrest, List.head?_cons, if_true]
+
+theorem run_deco (cfg : Cfg) (d : Deco) (ch : Nat) (name pend gap tail : Bytes) (ctx : Ctx) (pos : Nat) (st : St) (F : Nat)
+    (hch : ch < 0x80) (hnw : isWs ch = false) (hp : ∀ b ∈ pend, isWs b = true) (hg : ∀ b ∈ gap, isWs b = true)
+    (htail : Stop tail) (hrest : rest cfg.file pos = pend ++ ch :: (gap ++ tail))
+    (hin : InFile cfg.file pos) (hoff : 1 ≤ cfg.file.offset) (hb : Budget cfg st)
+    (hl : match d.left with | some m => wsOk m pend | none => pend = [])
+    (hr : match d.right with | some m => wsOk m gap | none => True) :
+    run cfg (F + 3) (d.apply (.term (.rune ch name))) ctx pos st =
+      some (⟨.one (.term (Utf8.encodeRune ch) (.rune ch) (pos + pend.length)
+              (pos + pend.length + 1 + (match d.right with | some _ => gap.length | none => 0))), [], none⟩, st) := by
+  have hstop : Stop (ch :: (gap ++ tail)) := stop_cons ch _ hnw
+  have hk : wsRun (rest cfg.file pos) = pend.length := by rw [hrest]; exact wsRun_append pend _ hp hstop
+  have hlen : (rest cfg.file pos).length = pend.length + 1 + gap.length + tail.length := by
+    rw [hrest]; simp; omega
+  -- the token's own position
+  have hinP : InFile cfg.file (pos + pend.length) := inFile_add _ _ _ hin (by omega)
+  have hrestP : rest cfg.file (pos + pend.length) = ch :: (gap ++ tail) := by
+    rw [rest_add _ _ _ hin, hrest]; simp
+  have hinR : InFile cfg.file (pos + pend.length + 1) := inFile_add _ _ _ hinP (by rw [hrestP]; simp)
+  have hrestR : rest cfg.file (pos + pend.length + 1) = gap ++ tail := by
+    rw [rest_add _ _ _ hinP, hrestP]; simp
+  have hkR : wsRun (rest cfg.file (pos + pend.length + 1)) = gap.length := by
+    rw [hrestR]; exact wsRun_append gap _ hg htail
+  have hokL : ∀ m, wsOk m (rest cfg.file pos) ↔ wsOk m pend := by
+    intro m; rw [hrest]; exact wsOk_append m pend _ hp hstop
+  have hokR : ∀ m, wsOk m (rest cfg.file (pos + pend.length + 1)) ↔ wsOk m gap := by
+    intro m; rw [hrestR]; exact wsOk_append m gap _ hg htail
+  have base : ∀ fuel, run cfg (fuel + 1) (.term (.rune ch name)) ctx (pos + pend.length) st =
+      some (⟨.one (.term (Utf8.encodeRune ch) (.rune ch) (pos + pend.length) (pos + pend.length + 1)), [], none⟩, st) :=
+    fun fuel => run_term_node cfg fuel _ ctx _ st hb _ (rune_parse cfg.params cfg.file ch name _ _ hch hinP hrestP)
+  cases d with
+  | bare =>
+    simp only [Deco.left] at hl
+    subst hl
+    simpa [Deco.apply, Deco.right] using base (F + 2)
+  | l m =>
+    simp only [Deco.left] at hl
+    have := run_ltrim_res cfg (F + 2) (.term (.rune ch name)) m ctx pos st st _ _ hb hin hoff (by rw [hk]; exact base (F + 1))
+    rw [if_pos ((hokL m).2 hl)] at this
+    simpa [Deco.apply, Deco.right] using this
+  | r m =>
+    simp only [Deco.left] at hl
+    simp only [Deco.right] at hr
+    subst hl
+    simp only [List.length_nil, Nat.add_zero] at *
+    have := run_rtrim_term cfg (F + 2) (.term (.rune ch name)) m ctx pos st st _ _ _ _ _ hb hinR hoff (base (F + 1))
+    rw [if_pos ((hokR m).2 hr), hkR] at this
+    simpa [Deco.apply, Deco.right] using this
+  | lr lm rm =>
+    simp only [Deco.left] at hl
+    simp only [Deco.right] at hr
+    have h1 := run_rtrim_term cfg (F + 1) (.term (.rune ch name)) rm ctx (pos + pend.length) st st _ _ _ _ _ hb hinR hoff (base F)
+    rw [if_pos ((hokR rm).2 hr), hkR] at h1
+    have := run_ltrim_res cfg (F + 2) (.rtrim (.term (.rune ch name)) rm) lm ctx pos st st _ _ hb hin hoff (by rw [hk]; exact h1)
+    rw [if_pos ((hokL lm).2 hl)] at this
+    simpa [Deco.apply, Deco.right] using this
+  | rl lm rm =>
+    simp only [Deco.left] at hl
+    simp only [Deco.right] at hr
+    have h1 := run_ltrim_res cfg (F + 1) (.term (.rune ch name)) lm ctx pos st st _ _ hb hin hoff (by rw [hk]; exact base F)
+    rw [if_pos ((hokL lm).2 hl)] at h1
+    have := run_rtrim_term cfg (F + 2) (.ltrim (.term (.rune ch name)) lm) rm ctx pos st st _ _ _ _ _ hb hinR hoff h1
+    rw [if_pos ((hokR rm).2 hr), hkR] at this
+    simpa [Deco.apply, Deco.right] using this
+
+
+theorem drop_tok_gap (pend : Bytes) (c : Nat) (gap tl : Bytes) :
+    (pend ++ c :: (gap ++ tl)).drop (pend.length + 1 + gap.length) = tl := by
+  rw [show pend ++ c :: (gap ++ tl) = (pend ++ c :: gap) ++ tl by simp]
+  exact List.drop_left' (by simp; omega)
+
+theorem drop_tok (pend : Bytes) (c : Nat) (tl : Bytes) : (pend ++ c :: tl).drop (pend.length + 1) = tl := by
+  rw [show pend ++ c :: tl = (pend ++ [c]) ++ tl by simp]
+  exact List.drop_left' (by simp)
+
+theorem cpUnion_nil_right (a : List Nat) : cpUnion a [] = a := by
+  cases a <;> simp [cpUnion]
+
+theorem handleResult_pos (sh : SeqShape) (p q : Nat) (n : Node) (l : List Node) :
+    handleResult sh p (n :: l) = handleResult sh q (n :: l) := by
+  cases l <;> rfl
+
+theorem seqAlts_one (k : Node → SeqSt → St → Option (Bool × SeqSt × St)) (n : Node) (ss ss' : SeqSt) (st st' : St) (b : Bool)
+    (h : k n ss st = some (b, ss', st')) : ∃ b', seqAlts k [n] ss st = some (b', ss', st') := by
+  cases b with
+  | true => exact ⟨true, by simp only [seqAlts, h]⟩
+  | false => exact ⟨false, by simp only [seqAlts, h]⟩
+
+theorem seqParse_toks (cfg : Cfg) (hmc : cfg.maxCalls = 0) (hoff : 1 ≤ cfg.file.offset) (sh : SeqShape) (F : Nat) :
+    ∀ (suf : List Tok) (depth : Nat) (nodes : List Node) (pend : Bytes) (ctx : Ctx) (pos : Nat) (merge : Bool)
+      (ss : SeqSt) (st : St) (fuel : Nat),
+      (∀ i, sh.lookup (depth + i) = (suf.map Tok.g)[i]?) → sh.lenCheck (depth + suf.length) = true →
+      (depth = 0 → nodes = []) → (∀ t ∈ suf, t.wf) → (∀ b ∈ pend, isWs b = true) →
+      rest cfg.file pos = weave pend suf → InFile cfg.file pos → Adm pend suf → suf.length + 1 ≤ fuel →
+      ∃ b, seqParse (run cfg (F + 3)) sh fuel depth nodes ctx pos merge ss st =
+        some (b, { ss with result := appendNode ss.result (.one (handleResult sh (endPos pos pend suf) (nodes ++ tokNodes pos pend suf))) },
+              { st with calls := st.calls + suf.length }) := by
+  intro suf
+  induction suf with
+  | nil =>
+    intro depth nodes pend ctx pos merge ss st fuel hlk hlen hnodes hwf hp hrest hin hadm hfuel
+    obtain ⟨fuel, rfl⟩ : ∃ k, fuel = k + 1 := ⟨fuel - 1, by simp at hfuel; omega⟩
+    have h0 := hlk 0
+    simp only [Nat.add_zero, List.map_nil, List.getElem?_nil] at h0
+    simp only [List.length_nil, Nat.add_zero] at hlen
+    rw [seqParse]
+    simp only [h0, hlen, if_true, pickErr, tokNodes, List.append_nil, endPos]
+    simp only [cpUnion_nil_right, ite_self, List.length_nil, Nat.add_zero]
+    by_cases hd : depth > 0
+    · rw [if_pos hd]; exact ⟨_, rfl⟩
+    · rw [if_neg hd, hnodes (by omega)]; exact ⟨_, rfl⟩
+  | cons t r ih =>
+    intro depth nodes pend ctx pos merge ss st fuel hlk hlen hnodes hwf hp hrest hin hadm hfuel
+    obtain ⟨fuel, rfl⟩ : ∃ k, fuel = k + 1 := ⟨fuel - 1, by simp at hfuel; omega⟩
+    have h0 := hlk 0
+    simp only [Nat.add_zero, List.map_cons, List.getElem?_cons_zero] at h0
+    obtain ⟨hwch, hwnw, hwgap⟩ := hwf t (by simp)
+    have hwfr : ∀ t' ∈ r, t'.wf := fun t' h' => hwf t' (by simp [h'])
+    obtain ⟨hl, hr⟩ := hadm
+    have hrest' : rest cfg.file pos = pend ++ t.ch :: (t.gap ++ body r) := by
+      rw [hrest, weave_eq]; rfl
+    have hb : Budget cfg st.regCall := Or.inl hmc
+    have hstep := run_deco cfg t.d t.ch t.name pend t.gap (body r) ctx pos st.regCall F hwch hwnw hp hwgap
+      (body_stop r hwfr) hrest' hin hoff hb hl
+      (by cases hdr : t.d.right with
+          | none => trivial
+          | some m => rw [hdr] at hr; exact hr.1)
+    have hlk' : ∀ i, sh.lookup (depth + 1 + i) = (r.map Tok.g)[i]? := by
+      intro i
+      have := hlk (i + 1)
+      simp only [List.map_cons, List.getElem?_cons_succ] at this
+      rw [← this]; congr 1; omega
+    have hlen' : sh.lenCheck (depth + 1 + r.length) = true := by
+      rw [← hlen]; congr 1; simp only [List.length_cons]; omega
+    have hlenR : (rest cfg.file pos).length = pend.length + 1 + t.gap.length + (body r).length := by
+      rw [hrest']; simp; omega
+    obtain ⟨sscp, ssres, sserr⟩ := ss
+    rw [seqParse]
+    simp only [h0]
+    rw [show run cfg (F + 3) t.g ctx pos st.regCall = _ from hstep]
+    simp only [pickErr, cpUnion_nil_right, ite_self, Res.alts]
+    cases hdr : t.d.right with
+    | some m =>
+      rw [hdr] at hr
+      simp only [tokNodes, endPos, hdr]
+      have hinN : InFile cfg.file (pos + pend.length + 1 + t.gap.length) := by
+        have := inFile_add _ _ (pend.length + 1 + t.gap.length) hin (by omega)
+        rw [show pos + pend.length + 1 + t.gap.length = pos + (pend.length + 1 + t.gap.length) by omega]; exact this
+      have hrestN : rest cfg.file (pos + pend.length + 1 + t.gap.length) = weave [] r := by
+        rw [show pos + pend.length + 1 + t.gap.length = pos + (pend.length + 1 + t.gap.length) by omega,
+          rest_add _ _ _ hin, hrest', weave_eq, drop_tok_gap]
+        rfl
+      obtain ⟨b, hb'⟩ := ih (depth + 1)
+        (nodes ++ [.term (Utf8.encodeRune t.ch) (.rune t.ch) (pos + pend.length) (pos + pend.length + 1 + t.gap.length)]) []
+        (if pos + pend.length + 1 + t.gap.length > pos then [] else ctx) (pos + pend.length + 1 + t.gap.length)
+        (merge && !decide (pos + pend.length + 1 + t.gap.length > pos)) ⟨sscp, ssres, sserr⟩ st.regCall fuel
+        hlk' hlen' (by omega) hwfr (by simp) hrestN hinN hr.2 (by simp only [List.length_cons] at hfuel; omega)
+      obtain ⟨b', hb''⟩ := seqAlts_one (fun n ss st =>
+          seqParse (run cfg (F + 3)) sh fuel (depth + 1) (nodes ++ [n]) (if n.rpos > pos then [] else ctx) n.rpos
+            (merge && !decide (n.rpos > pos)) ss st) _ _ _ _ _ b hb'
+      refine ⟨b', ?_⟩
+      rw [hb'']
+      simp only [List.append_assoc, List.cons_append, List.nil_append, St.regCall, List.length_cons]
+      congr 4
+      omega
+    | none =>
+      rw [hdr] at hr
+      simp only [tokNodes, endPos, hdr, Nat.add_zero]
+      have hinN : InFile cfg.file (pos + pend.length + 1) := by
+        have := inFile_add _ _ (pend.length + 1) hin (by omega)
+        rw [show pos + pend.length + 1 = pos + (pend.length + 1) by omega]; exact this
+      have hrestN : rest cfg.file (pos + pend.length + 1) = weave t.gap r := by
+        rw [show pos + pend.length + 1 = pos + (pend.length + 1) by omega,
+          rest_add _ _ _ hin, hrest', weave_eq, drop_tok]
+      obtain ⟨b, hb'⟩ := ih (depth + 1)
+        (nodes ++ [.term (Utf8.encodeRune t.ch) (.rune t.ch) (pos + pend.length) (pos + pend.length + 1)]) t.gap
+        (if pos + pend.length + 1 > pos then [] else ctx) (pos + pend.length + 1)
+        (merge && !decide (pos + pend.length + 1 > pos)) ⟨sscp, ssres, sserr⟩ st.regCall fuel
+        hlk' hlen' (by omega) hwfr hwgap hrestN hinN hr (by simp only [List.length_cons] at hfuel; omega)
+      obtain ⟨b', hb''⟩ := seqAlts_one (fun n ss st =>
+          seqParse (run cfg (F + 3)) sh fuel (depth + 1) (nodes ++ [n]) (if n.rpos > pos then [] else ctx) n.rpos
+            (merge && !decide (n.rpos > pos)) ss st) _ _ _ _ _ b hb'
+      refine ⟨b', ?_⟩
+      rw [hb'']
+      simp only [List.append_assoc, List.cons_append, List.nil_append, St.regCall, List.length_cons]
+      congr 4
+      omega
+
+
+theorem endPos_nil (pos : Nat) (pend : Bytes) : endPos pos pend [] = pos := rfl
+
+theorem tokNodes_ne_nil (pos : Nat) (pend : Bytes) (t : Tok) (r : List Tok) :
+    ∃ n l, tokNodes pos pend (t :: r) = n :: l := by
+  simp only [tokNodes]
+  cases t.d.right <;> exact ⟨_, _, rfl⟩
+
+theorem run_seqOf_toks (cfg : Cfg) (hmc : cfg.maxCalls = 0) (hoff : 1 ≤ cfg.file.offset)
+    (toks : List Tok) (o : SeqOpts) (g0 : Bytes) (ctx : Ctx) (pos : Nat) (st : St) (fuel : Nat) (sh : SeqShape)
+    (hsh : (G.seq .seqOf (toks.map Tok.g) o).shape = some sh)
+    (hwf : ∀ t ∈ toks, t.wf) (hg0 : ∀ b ∈ g0, isWs b = true)
+    (hrest : rest cfg.file pos = weave g0 toks) (hin : InFile cfg.file pos) (hadm : Adm g0 toks)
+    (hfuel : toks.length + 4 ≤ fuel) :
+    run cfg fuel (.seq .seqOf (toks.map Tok.g) o) ctx pos st =
+      some (⟨.one (handleResult sh pos (tokNodes pos g0 toks)), [], none⟩,
+            { st with calls := st.calls + toks.length }) := by
+  obtain ⟨F, rfl⟩ : ∃ F, fuel = F + 4 := ⟨fuel - 4, by omega⟩
+  have hlk : ∀ i, sh.lookup (0 + i) = (toks.map Tok.g)[i]? := by
+    intro i; simp only [G.shape, Option.some.injEq] at hsh; subst hsh; simp
+  have hlen : sh.lenCheck (0 + toks.length) = true := by
+    simp only [G.shape, Option.some.injEq] at hsh; subst hsh; simp
+  obtain ⟨b, hsp⟩ := seqParse_toks cfg hmc hoff sh F toks 0 [] g0 ctx pos true {} st (F + 3) hlk hlen (fun _ => rfl)
+    hwf hg0 hrest hin hadm (by omega)
+  rw [run]
+  · rw [if_neg (budget_guard (Or.inl hmc))]
+    simp only [hsh, hsp, appendNode, Res.isNil, List.nil_append, Bool.false_eq_true, if_false, St.setError]
+    have hh : handleResult sh (endPos pos g0 toks) (tokNodes pos g0 toks) = handleResult sh pos (tokNodes pos g0 toks) := by
+      cases toks with
+      | nil => rfl
+      | cons t r =>
+        obtain ⟨n, l, hnl⟩ := tokNodes_ne_nil pos g0 t r
+        rw [hnl]; exact handleResult_pos sh _ _ n l
+    rw [hh]
+  all_goals (intros; contradiction)
+
+/-! ### the expected nodes -/
+
+/-- `firstBreak` is the index of the first line break of the whitespace run -/
+theorem firstBreak_spec (ws : Bytes) (i : Nat) (h : firstBreak ws = some i) :
+    i < wsRun ws ∧ isBreak (ws.getD i 0) = true ∧ ∀ j, j < i → isBreak (ws.getD j 0) = false := by
+  induction ws generalizing i with
+  | nil => simp [firstBreak] at h
+  | cons b r ih =>
+    have hlt := firstBreak_lt _ _ h
+    refine ⟨hlt, ?_⟩
+    unfold firstBreak at h
+    by_cases hw : isWs b = true
+    · rw [if_pos hw] at h
+      by_cases hb : isBreak b = true
+      · rw [if_pos hb] at h; cases h
+        exact ⟨by simpa using hb, fun j hj => absurd hj (Nat.not_lt_zero _)⟩
+      · rw [if_neg hb] at h
+        cases hfb : firstBreak r with
+        | none => simp [hfb] at h
+        | some k =>
+          simp [hfb] at h; subst h
+          obtain ⟨_, h2, h3⟩ := ih k hfb
+          refine ⟨by simpa using h2, ?_⟩
+          intro j hj
+          cases j with
+          | zero => simpa using hb
+          | succ j => simpa using h3 j (by omega)
+    · rw [if_neg hw] at h; cases h
+
+theorem handleResult_cons (sh : SeqShape) (p : Nat) (n : Node) (l : List Node) (hs : sh.single = false) :
+    handleResult sh p (n :: l) = .nt sh.token (n :: l) n.pos ((((n :: l).getLast?).getD n).rpos) sh.interp := by
+  cases l with
+  | nil => simp [handleResult, hs]
+  | cons a l => simp [handleResult, List.getLast?_cons_cons]
+
+theorem tokNodes_shift (pos : Nat) (pend : Bytes) (toks : List Tok) :
+    tokNodes pos pend toks = tokNodes (pos + pend.length) [] toks := by
+  cases toks with
+  | nil => rfl
+  | cons t r => simp only [tokNodes, List.length_nil, Nat.add_zero]
+
+theorem endPos_shift (pos : Nat) (pend : Bytes) (toks : List Tok) (hne : toks ≠ []) :
+    endPos pos pend toks = endPos (pos + pend.length) [] toks := by
+  cases toks with
+  | nil => exact absurd rfl hne
+  | cons t r => simp only [endPos, List.length_nil, Nat.add_zero]
+
+theorem tokNodes_length (pos : Nat) (pend : Bytes) (toks : List Tok) : (tokNodes pos pend toks).length = toks.length := by
+  induction toks generalizing pos pend with
+  | nil => rfl
+  | cons t r ih =>
+    simp only [tokNodes]
+    cases t.d.right <;> simp [ih]
+
+theorem weave_length (g0 : Bytes) (toks : List Tok) : (weave g0 toks).length = g0.length + (weave [] toks).length := by
+  rw [weave_eq, weave_eq]; simp
+
+/-- the i-th node: the bare terminal's token and value, its own byte's position, end moved only by its own right trim -/
+theorem tokNodes_get (pos : Nat) (pend : Bytes) (toks : List Tok) (i : Nat) (t : Tok) (h : toks[i]? = some t) :
+    (tokNodes pos pend toks)[i]? = some (.term (Utf8.encodeRune t.ch) (.rune t.ch)
+      (pos + (weave pend (toks.take i)).length)
+      (pos + (weave pend (toks.take i)).length + 1 + (match t.d.right with | some _ => t.gap.length | none => 0))) := by
+  induction toks generalizing pos pend i with
+  | nil => simp at h
+  | cons t0 r ih =>
+    cases i with
+    | zero =>
+      simp only [List.getElem?_cons_zero, Option.some.injEq] at h; subst h
+      simp only [tokNodes, List.take_zero, weave]
+      cases t0.d.right <;> simp
+    | succ i =>
+      simp only [List.getElem?_cons_succ] at h
+      simp only [tokNodes, List.take_succ_cons, weave]
+      cases hd : t0.d.right with
+      | none =>
+        simp only [List.getElem?_cons_succ]
+        rw [ih _ _ i h]
+        simp only [List.length_append, List.length_cons]
+        congr 2 <;> omega
+      | some m =>
+        simp only [List.getElem?_cons_succ]
+        rw [ih _ _ i h]
+        simp only [List.length_append, List.length_cons, weave_length t0.gap]
+        congr 2 <;> omega
+
+/-- the byte at that position of the input is the token's byte -/
+theorem weave_byte (g0 : Bytes) (toks : List Tok) (i : Nat) (t : Tok) (h : toks[i]? = some t) :
+    (weave g0 toks)[(weave g0 (toks.take i)).length]? = some t.ch := by
+  induction toks generalizing g0 i with
+  | nil => simp at h
+  | cons t0 r ih =>
+    cases i with
+    | zero =>
+      simp only [List.getElem?_cons_zero, Option.some.injEq] at h; subst h
+      simp [weave]
+    | succ i =>
+      simp only [List.getElem?_cons_succ] at h
+      simp only [List.take_succ_cons, weave, List.length_append, List.length_cons]
+      rw [List.getElem?_append_right (by omega)]
+      rw [show g0.length + ((weave t0.gap (List.take i r)).length + 1) - g0.length = (weave t0.gap (List.take i r)).length + 1 by omega]
+      simp only [List.getElem?_cons_succ]
+      exact ih _ i h
+
+theorem tokNodes_tv (pos : Nat) (pend : Bytes) (toks : List Tok) :
+    (tokNodes pos pend toks).map Node.tv = toks.map (fun t => (Utf8.encodeRune t.ch, some (Val.rune t.ch))) := by
+  induction toks generalizing pos pend with
+  | nil => rfl
+  | cons t r ih =>
+    simp only [tokNodes]
+    cases t.d.right <;> simp [Node.tv, ih]
+
+theorem tokNodes_head (pos : Nat) (pend : Bytes) (t : Tok) (r : List Tok) :
+    ∃ n l, tokNodes pos pend (t :: r) = n :: l ∧ n.pos = pos + pend.length := by
+  simp only [tokNodes]
+  cases t.d.right <;> exact ⟨_, _, rfl, rfl⟩
+
+theorem tokNodes_step (pos : Nat) (pend : Bytes) (t : Tok) (r : List Tok) :
+    ∃ n p' pend', tokNodes pos pend (t :: r) = n :: tokNodes p' pend' r ∧
+      endPos pos pend (t :: r) = endPos p' pend' r ∧ n.rpos = p' := by
+  rw [tokNodes, endPos]
+  cases t.d.right with
+  | none => exact ⟨_, _, _, rfl, rfl, rfl⟩
+  | some m => exact ⟨_, _, _, rfl, rfl, rfl⟩
+
+theorem tokNodes_last (pos : Nat) (pend : Bytes) (toks : List Tok) (hne : toks ≠ []) :
+    (tokNodes pos pend toks).getLast?.map Node.rpos = some (endPos pos pend toks) := by
+  induction toks generalizing pos pend with
+  | nil => exact absurd rfl hne
+  | cons t r ih =>
+    obtain ⟨n, p', pend', h1, h2, h3⟩ := tokNodes_step pos pend t r
+    rw [h1, h2]
+    cases r with
+    | nil => simp [tokNodes, endPos, h3]
+    | cons t' r' =>
+      obtain ⟨n', l, hnl, _⟩ := tokNodes_head p' pend' t' r'
+      rw [← ih p' pend' (by simp), hnl, List.getLast?_cons_cons]
 
 end PV
